@@ -618,6 +618,10 @@ func (wg *WeightedAuthorizationModelGraph) calculateNodeWeightAndFixDependencies
 			weights[key] = Infinite
 		}
 	}
+	// every edge of the node leads back into its own cycle and nowhere else: no user type can ever be reached
+	if len(weights) == 0 {
+		return fmt.Errorf("%w: %s node does not have any terminal type to reach to", ErrInvalidModel, node.uniqueLabel)
+	}
 	node.weights = weights
 
 	wg.fixDependantEdgesWeight(nodeID, referenceNodeID, references, tupleCycleDependencies)
